@@ -64,6 +64,18 @@ C18Exp(e) ==
                       \* gcd and lcm are fixed whenever they are representable
                       [] f = "gcd" -> IF InRange(T, g) THEN OVal(T, g) ELSE Free
                       [] f = "lcm" -> IF InRange(T, l) THEN OVal(T, l) ELSE Free
+                      [] f = "gcd_lcm" -> IF InRange(T, g) /\ InRange(T, l) THEN [k |-> "wide", lo |-> Enc(T, g), hi |-> Enc(T, l)] ELSE Free
+                      \* num_integer's provided methods: ceiling division; the multiple of `other` next to self in the
+                      \* direction of other's sign (next) or against it (prev); fixed whenever representable
+                      [] f = "nt_div_ceil" -> IF zero THEN OPanic ELSE IF ov THEN Free ELSE OVal(T, ZDivCeil(x, y)[1])
+                      [] f = "nt_next_multiple_of" ->
+                           IF zero THEN OPanic ELSE IF ov THEN Free
+                           ELSE LET m == ZDivFloor(x, y)[2]
+                                    v == IF ZIsZero(m) THEN x ELSE ZAdd(x, ZSub(y, m))
+                                IN IF InRange(T, v) THEN OVal(T, v) ELSE Free
+                      [] f = "nt_prev_multiple_of" ->
+                           IF zero THEN OPanic ELSE IF ov THEN Free
+                           ELSE LET v == ZSub(x, ZDivFloor(x, y)[2]) IN IF InRange(T, v) THEN OVal(T, v) ELSE Free
                       [] f \in {"is_multiple_of", "divides"} ->
                            IF zero THEN Free ELSE IF ov THEN Free ELSE OBool(ZIsZero(ZDivTrunc(x, y)[2]))]
          [] e.op = "mul_add" -> AllForms(e, MulAddOut(T, e.mode, AV(a[1]), AV(a[2]), AV(a[3])))
